@@ -44,6 +44,21 @@ def scapy_from_spec(spec):
     return cls(hdr + raw)
 
 
+def scapy_reused_window(spec, warm):
+    """As scapy_reused, for the TCP window: the object was built and used with another window, then `tcp.window` was assigned.  Only for option
+    areas Scapy re-serialises byte for byte once a field of the TCP layer has been set (callers check c16.simple_opts) and no link framing."""
+    s = wire.full(spec)
+    if spec.get("link"):
+        return scapy_from_spec(spec)
+    obj = scapy_from_spec(dict(spec, win=(s["win"] * 4 + 5840) % 65536))
+    try:
+        warm(obj)
+    except Exception:
+        pass
+    obj.getlayer("TCP").window = s["win"]
+    return obj
+
+
 def scapy_reused(spec, warm):
     """The caller's ONE long-lived packet object: it was built with another TTL / hop limit, has been handed to `warm` (a fingerprint
     call, result ignored), and has been UPDATED IN PLACE since.  What a function reports for it must follow what it holds now.
